@@ -105,7 +105,7 @@ def run_tlc(module, cfg, workers=4, timeout=900, env_extra=None, simulate=None, 
     if p.returncode == 124:
         raise ToolError(f"TLC timed out on {module}/{cfg}")
     if "Error: Invariant" in text or "is violated" in text or "Error: Action property" in text \
-            or "Temporal properties were violated" in text:
+            or "Temporal properties were violated" in text or "Error: The invariant of" in text:
         res.violation = text[-3000:]
         return res
     if p.returncode != 0 or ("Model checking completed. No error has been found." not in text
